@@ -62,7 +62,7 @@ fn main() {
     }
     let mut c = Check::new("C06", args.tier, "exploration");
     c.rule = "complete enumeration of the configuration space: queue size (16 powers of two) x layout x 8 flag combinations x queue_used answer x max_queue_size (every value 0..N+1 for N<=64, boundary representatives otherwise: behaviour depends on the maximum only through max<N); distinct = distinct (size, outcome class) pairs".into();
-    c.assumptions = vec!["legacy layout on the model transport here; the real legacy MmioTransport's own layout assertions are exercised by C10".into()];
+    c.assumptions = vec!["the full size range is enumerated on the model transport; the real transports (parts registration:*) are exercised with N = 1, 8, 64".into()];
     macro_rules! sizes {
         ($($n:literal),*) => {{
             let hs: Vec<std::thread::JoinHandle<(u64, BTreeMap<String, u64>, Vec<(Case, String, String)>, usize)>> = vec![
@@ -91,6 +91,37 @@ fn main() {
                 .set("fail_alloc", J::i(case.fail_alloc));
             c.add_violation(Violation::new("C06", k, format!("N={} {:?}: {}", n, case, d)), &part, replay, vec![]);
         }
+    }
+    // Registration through the real transports: what the device ends up with.
+    {
+        use vlab::drivers::ALL_TKINDS;
+        let mut ev = 0u64;
+        let mut classes = std::collections::HashSet::new();
+        for tk in ALL_TKINDS {
+            let part = format!("registration:{}", tk.name());
+            let mut seen = std::collections::HashSet::new();
+            for pre in 0..7usize {
+                for skew in [0u32, 0xFFFFF] {
+                    for bits in 0..8u8 {
+                        for n in [1usize, 8, 64] {
+                            let v = match n {
+                                1 => vlab::c06::run_registration::<1>(tk, pre, skew, bits),
+                                8 => vlab::c06::run_registration::<8>(tk, pre, skew, bits),
+                                _ => vlab::c06::run_registration::<64>(tk, pre, skew, bits),
+                            };
+                            ev += 1;
+                            classes.insert((tk.name(), n, v.is_empty()));
+                            for (k, d) in v {
+                                if seen.insert(k.clone()) {
+                                    c.add_violation(Violation::new("C06", k, format!("{} transport, N={}, {} earlier allocations, skew {:#x}, flags {:#b}: {}", tk.name(), n, pre, skew, bits, d)), &part, J::obj().set("kind", J::s("registration")).set("transport", J::s(tk.name())).set("N", J::i(n)).set("pre", J::i(pre)).set("skew", J::i(skew)).set("bits", J::i(bits)), vec![]);
+                                }
+                            }
+                        }
+                    }
+                }
+            }
+        }
+        c.add_sweep("registration: VirtQueue::new (N = 1, 8, 64; 8 flag combinations) on the model, MMIO legacy, MMIO modern and PCI transports with the queue's regions starting in each of 7 different 4 GiB windows and two platform address skews; the addresses the register-level device received are held against the layout oracle", ev, classes.len() as u64, true, J::obj());
     }
     c.add_sample(J::obj().set("case", J::s("N=256 legacy=true indirect=false event_idx=true ap=false in_use=false max=256 -> created; queue_set(desc=P, driver=P+4096, device=P+8192), 3 pages freed once")));
     c.finish();
